@@ -272,8 +272,8 @@ func parsePluginFromDir(ctx context.Context, path string) (string, string, error
 		if err != nil {
 			return err
 		}
-		// skip sub-directories
-		if d.IsDir() && d.Name() != filepath.Base(path) {
+		// skip sub-directories (also one named like the directory itself)
+		if d.IsDir() && p != path {
 			return fs.SkipDir
 		}
 		info, err := d.Info()
